@@ -17,7 +17,7 @@ pub const fn u8_lower_upper(n: u8) -> (u8, u8) { (n & 15, n >> 4) }
 /// `retry_count+1` tries the last [PacketReceive] or [PacketSend] error.
 pub fn retry_on_timeout<T>(mut retry_count: usize, mut fetch: impl FnMut() -> GDResult<T>) -> GDResult<T> {
     let mut last_err = PacketReceive.context("Retry count was 0");
-    retry_count += 1;
+    retry_count = retry_count.saturating_add(1);
     while retry_count > 0 {
         last_err = match fetch() {
             Ok(r) => return Ok(r),
